@@ -44,6 +44,7 @@ func execCtor(c ctorCase, _ core.Source) (res core.Result) {
 	var size int
 	s := sched.New(src, false)
 	uninstall := s.Install()
+	defer uninstall()
 	g := s.Go("ctor", func() {
 		n := lib.Notation()
 		var q col.QueueLike[int64]
@@ -69,7 +70,6 @@ func execCtor(c ctorCase, _ core.Source) (res core.Result) {
 		got, capacity, size = q.AsArray(), q.GetCapacity(), q.GetSize()
 	})
 	r := s.Run()
-	uninstall()
 	desc := fmt.Sprintf("%s with %d initial values", c.Form, c.N)
 	if r.Deadlock {
 		res.Violation = core.Violate("C05/ctor/self-deadlock", "%s never returns: the constructing goroutine blocks on the queue's own capacity; blocked: %v", desc, r.Blocked)
